@@ -17,6 +17,7 @@ CACHE = extract.CACHE
 SEMANTIC = [
     'postcondition not satisfied',
     'precondition not satisfied',
+    'precondition not met',
     'assertion failed',
     'assertion not satisfied',
     'loop invariant not satisfied',
